@@ -264,6 +264,12 @@ fn main() {
             "--tick" => { cfg.tick = args[i + 1].parse().unwrap(); i += 1 }
             "--trading" => { cfg.trading = args[i + 1].parse().unwrap(); i += 1 }
             "--t0" => { cfg.t0 = args[i + 1].parse().unwrap(); i += 1 }
+            "--price-offset" => {
+                let k: u32 = args[i + 1].parse().unwrap();
+                assert!(k % cfg.tick == 0, "harness: the price offset must be a multiple of the tick size (give --tick first)");
+                bourse_verif_harness::PRICE_OFFSET.store(k, std::sync::atomic::Ordering::Relaxed);
+                i += 1
+            }
             "--trunc-every" => { cfg.trunc_every = args[i + 1].parse().unwrap(); i += 1 }
             "--case" => { single = Some(args[i + 1].clone()); i += 1 }
             a => { eprintln!("unknown argument {}", a); std::process::exit(2) }
